@@ -360,6 +360,57 @@ func c12deepBurst(fail func(kind, msg string)) {
 	wg.Wait()
 }
 
+// c12zoneHammer: n goroutines leave a spin barrier and each parse, in a tight loop, pre-formatted timestamps
+// that alternate between a few numeric offsets private to that goroutine. Every result must carry its own
+// offset and instant. The texts are formatted beforehand so that the loop is nothing but zone-cache traffic:
+// a lock-free cache whose reader can see one half of another goroutine's update shows up here as a wrong offset.
+func c12zoneHammer(r *rand.Rand, n, iters int, fail func(kind, msg string)) int {
+	type item struct {
+		s string
+		t time.Time
+	}
+	sets := make([][]item, n)
+	for g := range sets {
+		k := 2 + r.IntN(3)
+		for j := 0; j < k; j++ {
+			off := r.IntN(2*1439+1) - 1439
+			if j > 0 && r.IntN(3) == 0 { // same quarter-hour slot / same absolute value as the previous one
+				_, prev := sets[g][j-1].t.Zone()
+				off = []int{-prev / 60, prev/60 + 1, prev/60 - 1}[r.IntN(3)]
+				if off > 1439 || off < -1439 {
+					off = 0
+				}
+			}
+			t := time.Date(1990+r.IntN(60), time.Month(1+r.IntN(12)), 1+r.IntN(28), r.IntN(24), r.IntN(60), r.IntN(60), r.IntN(1e9), time.FixedZone("", off*60))
+			sets[g] = append(sets[g], item{t.Format(time.RFC3339Nano), t})
+		}
+	}
+	var ready atomic.Int32
+	var stop atomic.Bool
+	var wg sync.WaitGroup
+	for g := 0; g < n; g++ {
+		wg.Add(1)
+		go func(my []item) {
+			defer wg.Done()
+			rb := avro.NewReadBuf(nil)
+			ready.Add(1)
+			for ready.Load() < int32(n) {
+			}
+			for it := 0; it < iters && !stop.Load(); it++ {
+				x := my[it%len(my)]
+				got, err, pan := libParse(rb, x.s)
+				if err != nil || pan != nil || !sameTime(got, x.t) {
+					stop.Store(true)
+					fail("parse-time", fmt.Sprintf("zone hammer: %s parsed as %v err=%v panic=%v", x.s, got.Format(time.RFC3339Nano), err, pan))
+					return
+				}
+			}
+		}(sets[g])
+	}
+	wg.Wait()
+	return n * iters
+}
+
 var c12freshSeq atomic.Int64
 
 // c12freshBurst creates a key type that has never been looked up, releases builders and a registrar
@@ -772,6 +823,10 @@ func runC12(c *core.Ctx, i int) {
 	if i%8 == 3 && len(fails) == 0 {
 		c12deepBurst(fail)
 		c.Count("deep-build-bursts", 1)
+	}
+	if i%4 == 1 && len(fails) == 0 {
+		zr := rand.New(rand.NewPCG(uint64(c.Seed), uint64(i)*977+5))
+		c.Count("zone-hammer-parses", int64(c12zoneHammer(zr, []int{2, 4, 8, 16}[zr.IntN(4)], 4000, fail)))
 	}
 	for _, f := range fails {
 		c.Violate("result-differs", fmt.Sprintf("under %d goroutines an operation did not produce its sequential result: %s", N, f), map[string]any{"goroutines": N})
